@@ -125,6 +125,35 @@ def rk_of_path(path):
     return c
 
 
+OLD_NS = 10 ** 18            # 2001-09-09
+ENV_FACTS = []
+from ocean_science_utilities.filecache.remote_resources import RemoteResourceLocal  # noqa: E402
+LOCAL_COPY = RemoteResourceLocal().download()
+_SOURCES = {}
+_SRC_DIR = [None]
+
+
+def source_file(r, v, data):
+    """the remote object as a local file: written long ago (mtime 2001) and read once when it was made, so that
+    under the usual relatime mount a later read does not refresh its access time"""
+    if _SRC_DIR[0] is None:
+        _SRC_DIR[0] = tempfile.mkdtemp(prefix="osu_c18_src_", dir=os.environ.get("VERIF_TMP") or None)
+    key = (r, v)
+    if key not in _SOURCES:
+        p = os.path.join(_SRC_DIR[0], "obj_%d_%d" % key)
+        with open(p, "wb") as f:
+            f.write(data)
+        os.utime(p, ns=(OLD_NS, OLD_NS))
+        with open(p, "rb") as f:
+            f.read()
+        _SOURCES[key] = (p, time.time_ns())
+    p, made = _SOURCES[key]
+    wait = made + 12 * 10 ** 7 - time.time_ns()
+    if wait > 0:
+        time.sleep(wait / 1e9)
+    return p
+
+
 class TestResource(RemoteResource):
     URI_PREFIX = "test://"
 
@@ -142,8 +171,17 @@ class TestResource(RemoteResource):
                 raise IOError("injected failure before writing %s" % uri)
             data = full_bytes(r, v)
             if kind == "K":
-                with open(filepath, "wb") as f:
-                    f.write(data)
+                # the bytes are delivered by the library's own local-file resource (RemoteResourceLocal) from a
+                # source file that is OLD: the copy in the cache is a new file, stamped when it was fetched -
+                # recency is what eviction orders by, and the age of the remote object has nothing to do with it
+                src = source_file(r, v, data)
+                before = time.time_ns()
+                LOCAL_COPY("file://" + src, filepath)
+                st = os.stat(filepath)
+                if max(st.st_atime_ns, st.st_mtime_ns) < before - 5 * 10 ** 7:
+                    ENV_FACTS.append("a file fetched through RemoteResourceLocal carries the time stamps of its source "
+                                     "(written in 2001, last read when the run started) instead of the time it was fetched: "
+                                     "eviction sees it as older than every entry fetched before it")
                 os.utime(filepath, ns=(stamp, stamp))
                 return True
             with open(filepath, "wb") as f:
@@ -317,6 +355,9 @@ class Runner:
             o["in_cache"] = sorted("C.%d.%d" % rk for rk, b in zip(probe, inc) if b)
             if getattr(self, "module_facts", None):
                 o["module_facts"] = list(self.module_facts)
+            if ENV_FACTS:
+                o["environment_facts"] = sorted(set(ENV_FACTS))
+                del ENV_FACTS[:]
             o["len"] = len(self.cache)
             o["maxb"] = int(self.cache.config.max_size_bytes)
             o["par"] = bool(self.cache.config.parallel)
@@ -510,6 +551,8 @@ def main():
             shutil.rmtree(root, ignore_errors=True)
     finally:
         shutil.rmtree(root0, ignore_errors=True)
+        if _SRC_DIR[0]:
+            shutil.rmtree(_SRC_DIR[0], ignore_errors=True)
     emit({"results": results})
 
 
